@@ -113,6 +113,8 @@ def build_call(w, mod, c):
         d = callrun.concretise(val)
         if dep:
             from other.dep.v1 import dep_pb2
+            if 'kind' in d:
+                d['kind'] = getattr(dep_pb2, d['kind'])
             return dep_pb2.DepReq(**d)
         cls = getattr(mod, 'Req')
         # the caller builds the message with the PYTHON attribute names
